@@ -174,7 +174,7 @@ pub fn c14(ctx: &mut Ctx, tier: &str, r: &mut Rng, js: &[Value], reqs: &[String]
         return;
     }
     let anchors = [rd_of(2023, 1, 10), rd_of(2024, 2, 20), rd_of(1999, 12, 25), rd_of(2100, 2, 20), rd_of(1900, 2, 25), rd_of(2399, 1, 1) - 1500];
-    let max_span: i64 = if tier == "thorough" { 2000 } else { 420 };
+    let max_span: i64 = sz!(tier, 420, 2000);
     let mut n_api = 0;
     for (ai, a) in anchors.iter().enumerate() {
         for span in -5..=max_span {
@@ -187,16 +187,30 @@ pub fn c14(ctx: &mut Ctx, tier: &str, r: &mut Rng, js: &[Value], reqs: &[String]
             }
         }
     }
-    let n = if tier == "thorough" { 20000 } else { 2000 };
+    let n = sz!(tier, 2000, 20000);
     for _ in 0..n {
         let s = gen_rd(r);
         let span = r.int(-5, 2000);
         one(ctx, s, s + span - 1, r.below(65) as usize, false);
     }
     // the range API against the single-date API over methods, policies, places and seasons
-    let n_sweep = if tier == "thorough" { 1500 } else { 60 };
+    let n_sweep = sz!(tier, 60, 1500);
     for _ in 0..n_sweep {
         let (c, days) = gen_range_case(r, 150);
+        api_one(ctx, &c, days);
+    }
+    // the property names no era: ranges across the dates where consecutive calendar days are not one
+    // Julian Day apart in the library's reckoning (the Gregorian reform of 1582-10-15, 29 February of the
+    // years that are leap in the Julian calendar only, the first days of year 1) and in the far future
+    for (y, m, d, days) in [(1582, 10, 1, 40), (1582, 10, 14, 3), (1582, 12, 20, 30), (1500, 2, 20, 20), (1400, 2, 25, 10), (1100, 2, 27, 5),
+                            (1, 1, 1, 40), (1, 12, 20, 30), (4, 2, 20, 20), (622, 7, 1, 30), (9999, 11, 20, 42), (1599, 12, 15, 40)] {
+        let p = Params::new(Method::Mwl);
+        let c = DayCase { p, l: loc(41.9, 12.5, 20., 1.), rd: rd_of(y, m, d), w: None };
+        api_one(ctx, &c, days);
+    }
+    for _ in 0..sz!(tier, 12, 300) {
+        let (mut c, days) = gen_range_case(r, 60);
+        c.rd = r.int(2, rd_of(1599, 10, 1));
         api_one(ctx, &c, days);
     }
     ctx.sample(json!({"start": ymd(anchors[1]), "end": ymd(anchors[1] + 9), "parts": 4}));
